@@ -21,7 +21,7 @@ func init() {
 			"concatenated head first, then the merged tasks in ascending order; (R4) the Filter callback drops exactly the merged tasks " +
 			"(head kept, unknown ids kept); (R5) compaction drops a context only when it has a non-empty group equal to the next " +
 			"context's group; (R6) an un-grouped Synchronization is never combined, everything else is; (R7) Filter reads, decides and " +
-			"publishes in one exclusive critical section (tasks appended concurrently survive). NOT decided: exact sequence equality for " +
+			"publishes in one exclusive critical section (tasks appended concurrently survive). (R8) the combined contexts are written back to the surviving task before the hook runs. NOT decided: exact sequence equality for " +
 			"every queue layout (functional), interleavings beyond R4/R7 and the lock discipline of C05.",
 		Run: runC07,
 	})
